@@ -78,6 +78,9 @@ type Config struct {
 	KeepTrace        bool
 	TimeDeviations   bool // "the clock jumps while threads are runnable" is an alternative (cost 1)
 	SelectDeviations bool // a ready select case other than the first is an alternative (cost 1)
+	// PruneAt, if set, is asked at every choice point beyond the forced prefix whether the
+	// state (fingerprint) has already been expanded; the execution then stops there.
+	PruneAt func(fp uint64) bool
 }
 
 // Exec is one execution under a forced choice prefix.
@@ -424,6 +427,11 @@ func Choose(kind string, n int, costs []int) int {
 		fp = s.fingerprint(s.cur, true) ^ hs("choose:"+kind)
 	}
 	s.Points = append(s.Points, Point{N: n, Chosen: idx, CurEnabled: true, FP: fp, Window: s.window, Costs: costs, Kind: kind})
+	if s.window && pos >= len(s.prefix) && s.Cfg.PruneAt != nil && s.Cfg.PruneAt(fp) {
+		s.fail("pruned", "")
+		s.endExecution(s.cur)
+		runtime.Goexit()
+	}
 	s.cur.hash = mix(s.cur.hash, uint64(idx), hs(kind))
 	if s.Cfg.KeepTrace {
 		s.Trace = append(s.Trace, fmt.Sprintf("%-5s %-10s choice %d/%d", s.cur.name, "choose:"+kind, idx, n))
@@ -507,6 +515,10 @@ func (s *Exec) pick(from *thread) *thread {
 				fp = s.fingerprint(from, curEn)
 			}
 			s.Points = append(s.Points, Point{N: n, Chosen: idx, CurEnabled: curEn, FP: fp, Window: s.window, Costs: costs, Kind: "sched"})
+			if s.window && pos >= len(s.prefix) && s.Cfg.PruneAt != nil && s.Cfg.PruneAt(fp) {
+				s.fail("pruned", "")
+				return nil
+			}
 		}
 		switch {
 		case idx < len(en):
